@@ -8,6 +8,7 @@
   attributes on enum underlying types / interface bases are never validated (D-04b): `accept_iff_full_refuted`.
 -/
 import SlicecVerif.Lemmas.Validate
+import SlicecVerif.Lemmas.Pipeline
 
 namespace Slicec.C04
 
@@ -209,9 +210,9 @@ theorem attrPatch_ok : RuleOK attrPatchRule := by
         · simp only [List.mem_singleton] at hc; exact ⟨_, by simp, hc⟩
       · exact ⟨_, by simp, mem_map_const hc⟩
 
-theorem siteCodes_kinds (t : Table) (s : RefSite) (c : String) (h : c ∈ siteCodes t s) :
+theorem siteCodes_kinds (t : Table) (s : RefSite) (c : String) (h : c ∈ Validate.siteCodes t s) :
     ∃ k ∈ ["DoesNotExist", "TypeMismatch", "SelfReferentialTypeAliasNeedsConcreteType"], c = code k := by
-  unfold siteCodes at h
+  unfold Validate.siteCodes at h
   split at h
   · cases h
   · rename_i e _
@@ -733,8 +734,19 @@ theorem attribute_table_as_specified :
     (∀ r ∈ Gen.attributes, (r.directive = "compress" ∨ r.directive = "slicedFormat") →
       ∀ x, x ∈ r.argLiterals ↔ (x = "Args" ∨ x = "Return")) ∧
     (∀ r ∈ Gen.attributes, r.directive ≠ "compress" → r.directive ≠ "slicedFormat" → r.argLiterals = []) ∧
-    Gen.attributePrefix = "" := by
-  refine ⟨by decide, ?_, by decide, rfl⟩
+    Gen.attributePrefix = "" ∧
+    -- the arguments `allow` accepts on an element: `All` and the four lints about source text; `DuplicateFile` (a lint about the
+    -- command line) is a lint name but not an argument of the attribute
+    (∀ r ∈ Gen.attributes, r.lintArgs = true → ∀ x, argOK r x = true ↔
+      (x = "All" ∨ x = "Deprecated" ∨ x = "MalformedDocComment" ∨ x = "IncorrectDocComment" ∨ x = "BrokenDocLink")) := by
+  refine ⟨by decide, ?_, by decide, rfl, ?_⟩
+  rotate_left
+  · intro r hr hl x
+    simp only [Gen.attributes, List.mem_cons, List.mem_nil_iff, or_false] at hr
+    rcases hr with rfl | rfl | rfl | rfl | rfl <;> simp_all [argOK, Gen.allowableLintIds, Gen.allowExcluded]
+    constructor
+    · rintro ⟨h1, h2⟩; rcases h1 with h | h | h | h | h | h <;> simp_all
+    · rintro (h | h | h | h | h) <;> simp [h]
   intro r hr hd x
   simp only [Gen.attributes, List.mem_cons, List.mem_nil_iff, or_false] at hr
   rcases hr with rfl | rfl | rfl | rfl | rfl <;> simp_all
@@ -743,6 +755,182 @@ theorem attribute_table_as_specified :
 theorem attrOnUnderlying_rejected :
     ¬ (placementRule true).Holds attrOnUnderlying ∧ validate attrOnUnderlying = [code "InvalidAttribute"] := by
   decide
+
+/-! ## the complete pipeline: `validateFull` (Model/Pipeline.lean)
+
+`validate` lacks three checks of the compiler — the parser's E017 for a base / underlying type that is not written as a name
+resp. is an anonymous type, the alias gate (E019) and the interface-inheritance check (E032) of `detect_cycles`.
+`validateFull` has them, each in the phase where the compiler runs it; `WellFormedFull` is `WellFormed` plus the three rules,
+stated as reachability in the graphs. The theorems above are unchanged; the ones below are their analogues for the complete
+verdict. -/
+
+/-- `construct_interface` / `construct_enum` report nothing for a definition exactly when every base is written as a name
+    resp. the underlying type is not written as a sequence, dictionary or result type. -/
+theorem shape_iff (d : Def) : defShapeCodes d = [] ↔ DefShapeOK d := defShapeCodes_nil_iff d
+
+/-- the complete parse phase reports nothing exactly when the parse-time rules and the shape rule hold (per file the module
+    check is only reached when no parser action — the shape check included — reported anything) -/
+theorem parse_full_accept_iff (P : Program) : parseCodesFull P = [] ↔ ParseOK P ∧ ShapeOK P := by
+  rw [parseCodesFull_nil_iff, parse_accept_iff]
+
+/-- the alias gate (`revisits_anonymous_type`, a descent with the current path) reports nothing exactly when no alias leads
+    into a cycle of anonymous types -/
+theorem alias_gate_iff (P : Program) : aliasGateCodes P = [] ↔ NoAliasLoop P := by
+  rw [aliasGateCodes_nil_iff, aliasGate_nil_iff_noLoop]
+
+/-- the inheritance check (`find_path` with its `seen` set) reports nothing exactly when no interface reaches itself through
+    base references -/
+theorem inheritance_gate_iff (P : Program) : inheritCodes P = [] ↔ NoInheritanceLoop P := by
+  rw [inheritCodes_nil_iff, ifaceLoop_nil_iff_noLoop]
+
+/-- **what `validateFull` adds to `validate`**: a program is accepted by the complete pipeline exactly when `validate` accepts
+    it, its bases / underlying types have the shape the parser demands, the alias gate is silent and no interface is
+    reported by the inheritance check. -/
+theorem validateFull_nil_iff (P : Program) :
+    validateFull P = [] ↔
+      validate P = [] ∧ ShapeOK P ∧ Cyc.aliasGateErrors P = [] ∧ Cyc.ifaceLoopErrors (Cyc.igraphOfProgram P) = [] :=
+  Validate.validateFull_nil_iff P
+
+/-- on the programs that pass the three additional checks — everything the generator produced before the three families
+    were added — the two pipelines report the same codes, not just the same verdict -/
+theorem validateFull_eq_validate (P : Program) (hs : ShapeOK P) (ha : Cyc.aliasGateErrors P = [])
+    (hi : Cyc.ifaceLoopErrors (Cyc.igraphOfProgram P) = []) : validateFull P = validate P :=
+  Validate.validateFull_eq_validate P hs ha hi
+
+/-- **acceptance = well-formedness, for the complete front end** (both sentences of the property): no error code in any phase
+    exactly when the program satisfies every language rule — `WellFormed`, bases / underlying types of a form that can denote
+    an interface / a primitive, no alias that contains itself through an anonymous type, no interface that inherits from
+    itself. -/
+theorem accept_iff_full (P : Program) : validateFull P = [] ↔ WellFormedFull P := by
+  rw [validateFull_nil_iff, accept_iff, aliasGate_nil_iff_noLoop, ifaceLoop_nil_iff_noLoop]
+  rfl
+
+theorem accept_of_wellFormedFull (P : Program) (h : WellFormedFull P) : validateFull P = [] := (accept_iff_full P).mpr h
+
+/-- a program the complete pipeline accepts is accepted by `validate` (the converse fails: the three witnesses below) -/
+theorem accepted_full_accepted (P : Program) (h : validateFull P = []) : validate P = [] := ((validateFull_nil_iff P).mp h).1
+
+/-- **reported codes are sound, complete pipeline**: every code `validateFull` reports is the diagnostic of a rule of
+    `WellFormedFull` the program violates. -/
+theorem codes_sound_full (P : Program) (c : String) (h : c ∈ validateFull P) : ViolatesFull c P := by
+  unfold validateFull at h
+  obtain ⟨l, hl, hc⟩ := firstNonEmpty_mem _ c h
+  unfold phasesFull at hl
+  simp only [List.mem_cons, List.not_mem_nil, or_false] at hl
+  unfold ViolatesFull
+  rcases hl with rfl | rfl | rfl | rfl | rfl | rfl | rfl
+  · rcases parseCodesFull_mem P c hc with hmem | hsh
+    · refine .inl (.inl ⟨parse_codes_kinds P c hmem, ?_⟩)
+      intro hok
+      rw [(parse_accept_iff P).mpr hok] at hmem; cases hmem
+    · exact .inr (.inl hsh)
+  · left; right; exact ⟨_, by simp [gatedRules], rule_codes_sound attrPatch_ok P c hc⟩
+  · left; right; exact ⟨_, by simp [gatedRules], rule_codes_sound resolve_ok P c hc⟩
+  · right; right; left
+    refine ⟨mem_map_const hc, fun hno => ?_⟩
+    rw [(alias_gate_iff P).mpr hno] at hc; cases hc
+  · rcases List.mem_append.mp hc with hc | hc
+    · right; right; right
+      refine ⟨mem_map_const hc, fun hno => ?_⟩
+      rw [(inheritance_gate_iff P).mpr hno] at hc; cases hc
+    · left; right; exact ⟨_, by simp [gatedRules], rule_codes_sound cycle_ok P c hc⟩
+  · left; right; exact ⟨_, by simp [gatedRules], rule_codes_sound names_ok P c hc⟩
+  · left; right
+    obtain ⟨r, hr, hcr⟩ := List.mem_flatMap.mp hc
+    have hmem : r ∈ gatedRules Gen.unvisitedTypeRefAttrsValidated := by simp [gatedRules, hr]
+    exact ⟨r, hmem, rule_codes_sound (rules_ok _ r hmem) P c hcr⟩
+
+/-- **every rule violation is diagnosed, complete pipeline**: an ill-formed program is rejected, and with a code of a rule
+    it violates. -/
+theorem ill_formed_rejected_full (P : Program) (h : ¬ WellFormedFull P) : ∃ c ∈ validateFull P, ViolatesFull c P := by
+  cases hv : validateFull P with
+  | nil => exact absurd ((accept_iff_full P).mp hv) h
+  | cons c cs =>
+    have hc : c ∈ validateFull P := by rw [hv]; exact List.mem_cons_self ..
+    exact ⟨c, hv ▸ hc, codes_sound_full P c hc⟩
+
+/-- **gating, complete pipeline**: the first phase that reports an error decides the result. -/
+theorem gate_monotone_full (P : Program) (pre : List (List String)) (l : List String) (post : List (List String))
+    (hsplit : phasesFull P = pre ++ l :: post) (hpre : ∀ x ∈ pre, x = []) (hl : l ≠ []) : validateFull P = l := by
+  unfold validateFull
+  rw [hsplit]
+  exact firstNonEmpty_eq pre l post hpre hl
+
+/-- the parser's E017 is a parse-time error: it is always reported, whatever else is wrong with the program -/
+theorem shape_errors_reported (P : Program) (c : String) (h : c ∈ parseCodesFull P) : c ∈ validateFull P := by
+  have hne : parseCodesFull P ≠ [] := fun e => by rw [e] at h; cases h
+  rw [gate_monotone_full P [] (parseCodesFull P) _ rfl (by simp) hne]
+  exact h
+
+/-- the alias gate comes after resolution: a program with a resolution error gets only the resolution errors -/
+theorem resolution_error_hides_alias_gate (P : Program) (h1 : parseCodesFull P = []) (h2 : attrPatchRule.codes P = [])
+    (h3 : resolveRule.codes P ≠ []) : validateFull P = resolveRule.codes P :=
+  gate_monotone_full P [parseCodesFull P, attrPatchRule.codes P] _ _ rfl (by simp [h1, h2]) h3
+
+/-- the alias gate returns before the inheritance check and the containment detector: only E019 is reported -/
+theorem alias_gate_hides_cycles (P : Program) (h1 : parseCodesFull P = []) (h2 : attrPatchRule.codes P = [])
+    (h3 : resolveRule.codes P = []) (h4 : aliasGateCodes P ≠ []) : validateFull P = aliasGateCodes P :=
+  gate_monotone_full P [parseCodesFull P, attrPatchRule.codes P, resolveRule.codes P] _ _ rfl (by simp [h1, h2, h3]) h4
+
+/-- the inheritance check does not return: its reports and those of the containment detector come together, and the
+    redefinition scan and the visitor are not reached -/
+theorem inheritance_and_containment_together (P : Program) (h1 : parseCodesFull P = []) (h2 : attrPatchRule.codes P = [])
+    (h3 : resolveRule.codes P = []) (h4 : aliasGateCodes P = []) (h5 : cyclePhaseCodes P ≠ []) :
+    validateFull P = inheritCodes P ++ cycleRule.codes P :=
+  gate_monotone_full P [parseCodesFull P, attrPatchRule.codes P, resolveRule.codes P, aliasGateCodes P] _ _ rfl
+    (by simp [h1, h2, h3, h4]) h5
+
+/-! ### the three witnesses: accepted by `validate`, rejected by the compiler and by `validateFull` -/
+
+def inModule (defs : List Def) : Program := [{ fileAttrs := [], module := some ⟨[], "M"⟩, defs := defs }]
+def tref (e : TyExpr) : TRef := .mk [] e false
+def anEnumerator : Enumerator := { doc := [], attrs := [], name := "A", fields := none, value := none }
+
+/-- `interface I : bool {}` -/
+def primitiveBase : Program := inModule [.iface [] [] "I" [tref (.prim .bool)] []]
+/-- `enum E : Sequence<bool> { A }` -/
+def sequenceUnderlying : Program := inModule [.enum [] [] false false "E" (some (tref (.seq (tref (.prim .bool))))) [anEnumerator]]
+/-- `typealias A = Sequence<A>` -/
+def aliasLoop : Program := inModule [.alias [] [] "A" (tref (.seq (tref (.named "A"))))]
+/-- `interface A : B {}  interface B : A {}` -/
+def inheritanceLoop : Program := inModule [.iface [] [] "A" [tref (.named "B")] [], .iface [] [] "B" [tref (.named "A")] []]
+
+theorem primitiveBase_rejected :
+    validate primitiveBase = [] ∧ ¬ ShapeOK primitiveBase ∧ validateFull primitiveBase = [code "TypeMismatch"] := by
+  refine ⟨by decide +kernel, by decide, by decide +kernel⟩
+
+theorem sequenceUnderlying_rejected :
+    ¬ ShapeOK sequenceUnderlying ∧ validateFull sequenceUnderlying = [code "TypeMismatch"] := by
+  refine ⟨by decide, by decide +kernel⟩
+
+theorem aliasLoop_rejected :
+    validate aliasLoop = [] ∧ ¬ NoAliasLoop aliasLoop ∧
+    validateFull aliasLoop = [code "SelfReferentialTypeAliasNeedsConcreteType"] := by
+  refine ⟨by decide +kernel, by decide +kernel, by decide +kernel⟩
+
+theorem inheritanceLoop_rejected :
+    validate inheritanceLoop = [] ∧ ¬ NoInheritanceLoop inheritanceLoop ∧
+    validateFull inheritanceLoop = [code "InfiniteSizeCycle", code "InfiniteSizeCycle"] := by
+  refine ⟨by decide +kernel, by decide +kernel, by decide +kernel⟩
+
+/-- the phase order on concrete programs: a resolution error hides an alias loop; an alias loop hides an inheritance loop and
+    a containment cycle; an inheritance loop and a containment cycle are reported together and hide a redefinition; a
+    non-name base hides everything, and the file's missing module declaration as well -/
+theorem phase_order_witnesses :
+    validateFull (inModule [.alias [] [] "A" (tref (.seq (tref (.named "A")))),
+                            .struct [] [] false "S" [{ doc := [], attrs := [], tag := none, name := "x", ty := tref (.named "Nope") }]])
+      = [code "DoesNotExist"] ∧
+    validateFull (inModule [.alias [] [] "A" (tref (.seq (tref (.named "A")))), .iface [] [] "I" [tref (.named "I")] [],
+                            .struct [] [] false "S" [{ doc := [], attrs := [], tag := none, name := "x", ty := tref (.named "S") }]])
+      = [code "SelfReferentialTypeAliasNeedsConcreteType"] ∧
+    validateFull (inModule [.iface [] [] "I" [tref (.named "I")] [],
+                            .struct [] [] false "S" [{ doc := [], attrs := [], tag := none, name := "x", ty := tref (.named "S") }],
+                            .struct [] [] false "S" []])
+      = [code "InfiniteSizeCycle", code "InfiniteSizeCycle"] ∧
+    validateFull [{ fileAttrs := [], module := none,
+                    defs := [.iface [] [] "I" [tref (.prim .bool), tref (.named "I"), tref (.named "Nope")] [], .struct [] [] false "I" []] }]
+      = [code "TypeMismatch"] := by
+  refine ⟨by decide +kernel, by decide +kernel, by decide +kernel, by decide +kernel⟩
 
 /-! ## non-vacuity -/
 
@@ -761,6 +949,17 @@ example : streamLastCheck [false, true] ++ multiStreamCheck [false, true] = [] :
   | n + 2, hi => simp at hi
 example : LegalKey ⟨fun _ => none, fun _ => false⟩ ⟨false, .prim .int32⟩ := LegalKey.prim _ (by decide)
 example : keyCheck ⟨fun _ => none, fun _ => false⟩ 1 ⟨false, .prim .float32⟩ = some "KeyTypeNotSupported" := by decide
+
+/-- the complete pipeline accepts: an interface with a named (optional) base, a diamond of aliases of anonymous types, an enum
+    with a primitive underlying type — and the specification holds for it -/
+example : validateFull (inModule [.iface [] [] "J" [] [], .iface [] [] "I" [.mk [] (.named "J") true] [],
+    .alias [] [] "N" (tref (.seq (tref (.prim .string)))), .alias [] [] "P" (tref (.result (tref (.named "N")) (tref (.named "N")))),
+    .enum [] [] false false "E" (some (tref (.prim .uint8))) [anEnumerator]]) = [] := by decide +kernel
+example : WellFormedFull (inModule [.iface [] [] "J" [] [], .iface [] [] "I" [.mk [] (.named "J") true] []]) :=
+  (accept_iff_full _).mp (by decide +kernel)
+example : ¬ WellFormedFull aliasLoop := fun h => aliasLoop_rejected.2.1 h.2.2.1
+example : ∃ c ∈ validateFull inheritanceLoop, ViolatesFull c inheritanceLoop :=
+  ill_formed_rejected_full _ (fun h => inheritanceLoop_rejected.2.1 h.2.2.2)
 
 end Slicec.C04
 
@@ -825,3 +1024,24 @@ end Slicec.C04
 #print axioms Slicec.C04.moduleNameClash_rejected
 #print axioms Slicec.C04.attribute_table_as_specified
 #print axioms Slicec.C04.accept_iff
+#print axioms Slicec.C04.shape_iff
+#print axioms Slicec.C04.parse_full_accept_iff
+#print axioms Slicec.C04.alias_gate_iff
+#print axioms Slicec.C04.inheritance_gate_iff
+#print axioms Slicec.C04.validateFull_nil_iff
+#print axioms Slicec.C04.validateFull_eq_validate
+#print axioms Slicec.C04.accept_iff_full
+#print axioms Slicec.C04.accept_of_wellFormedFull
+#print axioms Slicec.C04.accepted_full_accepted
+#print axioms Slicec.C04.codes_sound_full
+#print axioms Slicec.C04.ill_formed_rejected_full
+#print axioms Slicec.C04.gate_monotone_full
+#print axioms Slicec.C04.shape_errors_reported
+#print axioms Slicec.C04.resolution_error_hides_alias_gate
+#print axioms Slicec.C04.alias_gate_hides_cycles
+#print axioms Slicec.C04.inheritance_and_containment_together
+#print axioms Slicec.C04.primitiveBase_rejected
+#print axioms Slicec.C04.sequenceUnderlying_rejected
+#print axioms Slicec.C04.aliasLoop_rejected
+#print axioms Slicec.C04.inheritanceLoop_rejected
+#print axioms Slicec.C04.phase_order_witnesses
